@@ -718,4 +718,7 @@ def run(ctx):
     import c13
 
     ctx.include("C04.12", "the statements synthesised for `x op= e`, `x++` and `x--` are located at the whole statement: the expansion is compared with the written-out form including the meta it is given (shared with C13.1)", c13.rule_expansions)
+    import c17
+
+    ctx.include("C04.17", "a definition is stored with the id of the file it was parsed from - also when an earlier file has an id but no contents (it failed to parse) - and a duplicate definition is reported at its own location in its own file (shared with C17.1): every later finding is displayed in the file that id names", lambda c: c17.eval_template_library(c, "C17.1"), only=["TemplateLibrary::new/evaluated/definition-keeps", "TemplateLibrary::new/evaluated/each-duplicate"])
     ctx.include("C04.8", "SARIF regions come from the renderer's own lookup of the label's byte offsets (shared with C03.8)", lambda c: c03.rule_region(c, "C03.8"))
